@@ -10,9 +10,6 @@ Record rid := { rk : kind; rns : string; rname : string }.
 
 Record sinfo := { s_stamp : Z; s_pt : option string }.   (* Some host: TLS-passthrough TransportServer for that host *)
 
-Definition kind_eqb (a b : kind) : bool :=
-  match a, b with KIng, KIng | KVS, KVS | KTS, KTS => true | _, _ => false end.
-
 Definition rid_eqb (a b : rid) : bool :=
   kind_eqb (rk a) (rk b) && String.eqb (rns a) (rns b) && String.eqb (rname a) (rname b).
 
